@@ -19,6 +19,8 @@ func checkC10(p *Prog, r *Result, tier string) {
 	r.Rule("C10.R5", "flusher critical section: the pending flush is called with the handle lock in write mode and after the context was re-checked under that lock", 1)
 	r.Rule("C10.R6", "explicit flushes: FlushAll calls the pending flush on every return; FlushAllAndCommit calls flush and commit on every return regardless of the first error; every iteration of the map flush writes the object and drops the entry", 3)
 	r.Rule("C10.R7", "a delete drops the pending entry (CALL.del(pending) on every successful delete under caching; shared with C01.R2)", 1)
+	r.Rule("C10.R8", "the 'flusher started' flag belongs to one settings object: the async settings are handled by pointer, no function copies a whole settings value (which would duplicate the private flag, so that the starter believes a flusher is running for settings that have none) unless it resets the flag of the copy", 0)
+	checkAsyncCopies(p, r, "C10.R8")
 	r.NotDecided = []string{"that the threshold/timeout comparison fires in time (wall clock)", "that the flusher is not starved"}
 	c := computeClosures(p)
 
@@ -194,7 +196,7 @@ func init() { register("C10", checkC10) }
 // ---- C07 ------------------------------------------------------------------------------
 
 func checkC07(p *Prog, r *Result, tier string) {
-	r.Rule("C07.R1", "validate-all dominates insert-any: in the batch entry no reject-class source is reachable after a mutation (C06.R1 on the batch entry), every iteration of the validating loop performs all checks for its element (ITER), and both loops range over the whole, unsliced variadic parameter from its first element", 6)
+	r.Rule("C07.R1", "validate-all dominates insert-any: in the batch entry no reject-class source is reachable after a mutation (C06.R1 on the batch entry), every iteration of the validating loop assigns the identifier and performs all checks for its element (ITER), and both loops range over the whole, unsliced variadic parameter from its first element", 6)
 	r.Rule("C07.R2", "counts: every return of the batch entry on a path without insertion reports 0; in the insert loop the count is incremented exactly once per accepted object", 2)
 	r.Rule("C07.R3", "bulk: every batch call's count is added to the reported total; after a failed batch no further batch is applied; objects are consumed from the channel by a single receive and appended unconditionally in arrival order", 4)
 	r.Rule("C07.R4", "the scratch index is scratch: container values stored into index structures are fresh, decoded or derived from the same structure; a scratch index is never installed in a published schema", 4)
@@ -222,7 +224,7 @@ func checkC07(p *Prog, r *Result, tier string) {
 		}
 	}
 	// R1 (b): ITER
-	checkValidateLoops(p, c, r, "C07.R1", effs(EHookT, ECanon, EOkValid, EOkUniqLive, EOkAcceptTemp))
+	checkValidateLoops(p, c, r, "C07.R1", effs(ECallInit, EHookT, ECanon, EOkValid, EOkUniqLive, EOkAcceptTemp))
 	// R1 (c): structure of the loops over the variadic parameter
 	checkWholeSliceLoops(p, r, "C07.R1", many)
 
@@ -694,5 +696,62 @@ func checkCachePredicates(p *Prog, r *Result, rule string) {
 			r.Report(rule, FuncName(fn), "truth table", Violated, "predicate differs from "+spec.text+" at: "+strings.Join(bad, "; "), p.Pos(fn.Pos()), nil, true)
 		}
 		r.Evaluations += cells
+	}
+}
+
+// checkAsyncCopies: whole-value loads of the async settings struct.
+func checkAsyncCopies(p *Prog, r *Result, rule string) {
+	a := p.A
+	st := structOf(a.Async)
+	if st == nil {
+		r.Report(rule, "-", "settings type", Undecided, "async settings type not found", "", nil, false)
+		return
+	}
+	// the private flag(s): unexported boolean fields
+	flags := map[*types.Var]bool{}
+	for i := 0; i < st.NumFields(); i++ {
+		f := st.Field(i)
+		if b, ok := f.Type().Underlying().(*types.Basic); ok && b.Kind() == types.Bool && !f.Exported() {
+			flags[f] = true
+		}
+	}
+	if len(flags) == 0 {
+		r.Report(rule, "-", "private flag of the settings type", Discharged, "the settings type has no private flag any more", "", nil, false)
+		return
+	}
+	n := 0
+	for _, fn := range p.Funcs {
+		resets := false
+		for _, b := range fn.Blocks {
+			for _, in := range b.Instrs {
+				if s, ok := in.(*ssa.Store); ok {
+					if _, f, _ := fieldOf(s.Addr); flags[f] {
+						if c, ok := s.Val.(*ssa.Const); ok && c.Value != nil && c.Value.String() == "false" {
+							resets = true
+						}
+					}
+				}
+			}
+		}
+		for _, b := range fn.Blocks {
+			for _, in := range b.Instrs {
+				u, ok := in.(*ssa.UnOp)
+				if !ok || u.Op != token.MUL || named(u.Type()) != a.Async {
+					continue
+				}
+				if _, isStruct := u.Type().Underlying().(*types.Struct); !isStruct {
+					continue
+				}
+				n++
+				if resets {
+					r.Report(rule, FuncName(fn), "copy of a settings value resets the flag", Discharged, "", p.Pos(in.Pos()), nil, true)
+				} else {
+					r.Report(rule, FuncName(fn), "copy of a settings value resets the flag", Violated, "a whole async settings value is copied together with its private 'flusher started' flag: when the original's flusher is running, the starter will never start one for the copy and writes accepted under it are flushed by nobody until Close", p.Pos(in.Pos()), nil, true)
+				}
+			}
+		}
+	}
+	if n == 0 {
+		r.Report(rule, "-", "no settings value is copied", Discharged, "", "", nil, true)
 	}
 }
